@@ -131,6 +131,8 @@ func init() {
 				})
 				R.decide("C12.i", kRPCFS+":difference", "the difference is a*m - k (negated when sign = -1)", okDiff, "got "+got, P.Pos(fn.Pos()))
 			}},
+		Rule{ID: "C12.o", Explain: "no failure is dropped in package rangeproof (a failed split, generator or structure extraction ends the call) (same rule as C08.g: the error a call returns has a use - a nil test or a return - before it is overwritten, shadowed or left behind).",
+			Run: func(P *Program, R *Report) { errorResultsUsedRule(P, R, "C12.o", inFiles(P, "rangeproof/"), nil, 5) }},
 	)
 }
 
